@@ -270,7 +270,7 @@ def run(ck: Check):
             ck.search_cases += 1
             judge(ck, c, res)
         # ---- T: valid_class_name
-        n_vcn = 6000 if ck.quick else 100000
+        n_vcn = 4000 if ck.quick else 100000
         reqs, real = [], []
         for _ in range(n_vcn):
             cn = rand_class(rng, "/s")
@@ -286,7 +286,7 @@ def run(ck: Check):
         if drv:
             ck.compare("vcn", reqs, real, drv.ask(reqs))
         # ---- T + S: export
-        n_exp = 220 if ck.quick else 6000
+        n_exp = 160 if ck.quick else 6000
         reqs, real, model = [], [], []
         dist = {"dex_files": 0, "classes": 0, "methods": 0, "export_completed": 0, "export_raised": 0,
                 "with_dotdot": 0, "absolute_looking": 0, "long_names": 0, "nul_or_newline": 0, "paths_created": 0,
